@@ -34,11 +34,19 @@ type c08Lit struct {
 	neg  bool
 }
 
-type c08Pred struct {
-	guard   int     // -1: plain nonterminal; otherwise the predicate tested by a nested (?= G) / (?= !G)
-	seqs    [][]int // token sequences (when the guard holds, or no guard)
-	seqsNot [][]int // token sequences tried when the guard fails
+// c08Side is one group of alternatives of a predicate nonterminal: (?= guard) seq | (?= guard) seq ...; an empty
+// guard means plain alternatives. A predicate with guards has two or more sides whose guards form an
+// exclusive and exhaustive decision list (a nested lookahead).
+type c08Side struct {
+	guard []c08Lit
+	seqs  [][]int
 }
+
+type c08Pred struct {
+	sides []c08Side
+}
+
+func plainPred(seqs [][]int) c08Pred { return c08Pred{sides: []c08Side{{seqs: seqs}}} }
 
 type c08Alt struct {
 	lits  []c08Lit
@@ -183,11 +191,12 @@ func (g *c08Gram) toTM() string {
 				sb.WriteString(prefix + c08SeqTM(s) + "\n")
 			}
 		}
-		if pd.guard < 0 {
-			emit("", pd.seqs)
-		} else {
-			emit(fmt.Sprintf("(?= P%d) ", pd.guard), pd.seqs)
-			emit(fmt.Sprintf("(?= !P%d) ", pd.guard), pd.seqsNot)
+		for _, sd := range pd.sides {
+			if len(sd.guard) == 0 {
+				emit("", sd.seqs)
+			} else {
+				emit(litsExpr(sd.guard)+" ", sd.seqs)
+			}
 		}
 		sb.WriteString(";\n\n")
 	}
@@ -233,7 +242,7 @@ func VerifRun(mode string, input []byte) string {
 // c08Lookaheads builds the alternatives of one conflict point over the predicates `inputs` (ported from
 // genLookaheads of c08.go): a shuffled decision list (exclusive by construction), optionally corrupted, or an
 // unstructured set.
-func c08Lookaheads(rng *rand.Rand, inputs []int, strategy int) [][]c08Lit {
+func c08Lookaheads(rng *rand.Rand, inputs []int, strategy int, exhaustive bool) [][]c08Lit {
 	ninputs := len(inputs)
 	var las [][]c08Lit
 	if strategy < 2 {
@@ -242,7 +251,7 @@ func c08Lookaheads(rng *rand.Rand, inputs []int, strategy int) [][]c08Lit {
 			pol[i] = rng.Intn(2) == 0
 		}
 		n := 2 + rng.Intn(ninputs)
-		if rng.Intn(2) == 0 {
+		if rng.Intn(2) == 0 || (exhaustive && rng.Intn(2) == 0) {
 			n = ninputs + 1 // prefer the longest list: 3+ alternatives
 		}
 		for k := 0; k < n; k++ {
@@ -250,7 +259,7 @@ func c08Lookaheads(rng *rand.Rand, inputs []int, strategy int) [][]c08Lit {
 			for j := 0; j < k && j < ninputs; j++ {
 				preds = append(preds, c08Lit{inputs[j], !pol[j]})
 			}
-			if k < ninputs && (k < n-1 || rng.Intn(2) == 0) {
+			if k < ninputs && (k < n-1 || (!exhaustive && rng.Intn(2) == 0)) {
 				preds = append(preds, c08Lit{inputs[k], pol[k]})
 			}
 			las = append(las, preds)
@@ -326,6 +335,10 @@ func randSubset(rng *rand.Rand, n int, atLeast int) []int {
 	}
 }
 
+// c08NestedWithoutRecursive (argument "nonrec-nested", experiments only): nested lookaheads although
+// recursiveLookaheads is off.
+var c08NestedWithoutRecursive bool
+
 func genC08Gram(rng *rand.Rand, name string) *c08Gram {
 	g := &c08Gram{name: name}
 	// k1 predicates decided by the first token after the key, k2 by the second token
@@ -353,7 +366,7 @@ func genC08Gram(rng *rand.Rand, name string) *c08Gram {
 	}
 	g.cancellable = rng.Intn(2) == 0
 	g.cancFetch = g.cancellable && rng.Intn(3) == 0
-	g.recursive = rng.Intn(2) == 0
+	g.recursive = rng.Intn(5) < 3
 	g.optimize = rng.Intn(3) == 0
 	g.rightList = rng.Intn(4) == 0
 
@@ -372,7 +385,7 @@ func genC08Gram(rng *rand.Rand, name string) *c08Gram {
 	m1 := masks(k1)
 	refined := make([]bool, g.ntok)
 	for j := 0; j < k1; j++ {
-		pd := c08Pred{guard: -1}
+		var seqs [][]int
 		for t := 0; t < g.ntok; t++ {
 			if m1[t]>>uint(j)&1 == 0 {
 				continue
@@ -386,24 +399,24 @@ func genC08Gram(rng *rand.Rand, name string) *c08Gram {
 					if withSemi {
 						s = append(s, c08Semi)
 					}
-					pd.seqs = append(pd.seqs, s)
+					seqs = append(seqs, s)
 				}
 			} else {
-				pd.seqs = append(pd.seqs, []int{t})
+				seqs = append(seqs, []int{t})
 			}
 		}
-		g.preds = append(g.preds, pd)
+		g.preds = append(g.preds, plainPred(seqs))
 	}
 	if k2 > 0 {
 		m2 := masks(k2)
 		for j := 0; j < k2; j++ {
-			pd := c08Pred{guard: -1}
+			var seqs [][]int
 			for u := 0; u < g.ntok; u++ {
 				if m2[u]>>uint(j)&1 != 0 {
-					pd.seqs = append(pd.seqs, []int{c08Any, u})
+					seqs = append(seqs, []int{c08Any, u})
 				}
 			}
-			g.preds = append(g.preds, pd)
+			g.preds = append(g.preds, plainPred(seqs))
 		}
 	}
 	npred := k1 + k2
@@ -438,7 +451,7 @@ func genC08Gram(rng *rand.Rand, name string) *c08Gram {
 				if p == corruptAt {
 					strategy = 1 + rng.Intn(2)
 				}
-				las = c08Lookaheads(rng, inputs, strategy)
+				las = c08Lookaheads(rng, inputs, strategy, false)
 				if c08ValidSet(las) {
 					break
 				}
@@ -457,59 +470,109 @@ func genC08Gram(rng *rand.Rand, name string) *c08Gram {
 		}
 		g.points = append(g.points, alts)
 	}
-	// nested lookaheads: one predicate gets alternatives guarded by (?= G) / (?= !G)
-	if g.recursive && rng.Intn(2) == 0 {
+	// nested lookaheads: one or two of the predicates used by the conflict points get sides guarded by an
+	// exclusive and exhaustive decision list over one or two other (plain) predicates
+	if (g.recursive || c08NestedWithoutRecursive) && rng.Intn(4) != 0 {
 		var usedPreds []int
 		for j := 0; j < npred; j++ {
+			used := false
 			for _, alts := range g.points {
 				for _, a := range alts {
 					for _, l := range a.lits {
-						if l.pred == j && (len(usedPreds) == 0 || usedPreds[len(usedPreds)-1] != j) {
-							usedPreds = append(usedPreds, j)
-						}
+						used = used || l.pred == j
 					}
 				}
 			}
+			if used {
+				usedPreds = append(usedPreds, j)
+			}
 		}
-		j := usedPreds[rng.Intn(len(usedPreds))]
-		guard := -1
-		if j+1 < npred && rng.Intn(2) == 0 {
-			guard = j + 1 + rng.Intn(npred-j-1)
-		} else {
-			// an auxiliary predicate on single tokens
-			aux := c08Pred{guard: -1}
-			for _, t := range randSubset(rng, g.ntok, 1) {
-				aux.seqs = append(aux.seqs, []int{t})
-			}
-			g.preds = append(g.preds, aux)
-			guard = len(g.preds) - 1
+		rng.Shuffle(len(usedPreds), func(i, j int) { usedPreds[i], usedPreds[j] = usedPreds[j], usedPreds[i] })
+		nn := 1
+		if len(usedPreds) > 1 && rng.Intn(3) == 0 {
+			nn = 2
 		}
-		pd := &g.preds[j]
-		pd.guard = guard
-		// the same first tokens on both sides (so that the guard is consulted for every first token)
-		firstSeen := map[int]bool{}
-		for _, s := range pd.seqs {
-			t := s[0]
-			if firstSeen[t] {
-				continue
+		isNested := map[int]bool{}
+		for _, j := range usedPreds[:nn] {
+			isNested[j] = true
+		}
+		var auxes []int
+		for _, j := range usedPreds[:nn] {
+			nguards := 1 + rng.Intn(3)
+			if nguards > 2 {
+				nguards = 2
 			}
-			firstSeen[t] = true
-			switch {
-			case t == c08Any:
-				for _, u := range randSubset(rng, g.ntok, 1) {
-					pd.seqsNot = append(pd.seqsNot, []int{c08Any, u})
+			var guards []int
+			for len(guards) < nguards {
+				var cands []int
+				for q := 0; q < npred; q++ {
+					if !isNested[q] {
+						cands = append(cands, q)
+					}
 				}
-			case rng.Intn(2) == 0:
-				pd.seqsNot = append(pd.seqsNot, []int{t})
-			default:
-				for _, u := range randSubset(rng, g.ntok, 1) {
-					pd.seqsNot = append(pd.seqsNot, []int{t, u})
+				cands = append(cands, auxes...)
+				pick := -1
+				if len(cands) > 0 && rng.Intn(2) == 0 {
+					pick = cands[rng.Intn(len(cands))]
+				}
+				dup := false
+				for _, q := range guards {
+					dup = dup || q == pick
+				}
+				if pick < 0 || dup {
+					// a new auxiliary predicate on single tokens
+					var seqs [][]int
+					for _, t := range randSubset(rng, g.ntok, 1) {
+						seqs = append(seqs, []int{t})
+					}
+					g.preds = append(g.preds, plainPred(seqs))
+					pick = len(g.preds) - 1
+					auxes = append(auxes, pick)
+				}
+				guards = append(guards, pick)
+			}
+			var las [][]c08Lit
+			for {
+				las = c08Lookaheads(rng, guards, 0, true)
+				if c08ValidSet(las) {
+					break
 				}
 			}
+			base := g.preds[j].sides[0].seqs
+			var sides []c08Side
+			for si, la := range las {
+				sd := c08Side{guard: la}
+				if si == 0 {
+					sd.seqs = base
+				} else {
+					// the same first tokens on every side (so that the guards are consulted for every first token)
+					firstSeen := map[int]bool{}
+					for _, s := range base {
+						t := s[0]
+						if firstSeen[t] {
+							continue
+						}
+						firstSeen[t] = true
+						switch {
+						case t == c08Any:
+							for _, u := range randSubset(rng, g.ntok, 1) {
+								sd.seqs = append(sd.seqs, []int{c08Any, u})
+							}
+						case rng.Intn(2) == 0:
+							sd.seqs = append(sd.seqs, []int{t})
+						default:
+							for _, u := range randSubset(rng, g.ntok, 1) {
+								sd.seqs = append(sd.seqs, []int{t, u})
+							}
+						}
+					}
+				}
+				sides = append(sides, sd)
+			}
+			g.preds[j].sides = sides
 		}
 		g.nested = true
 	}
-
 	return g
 }
 
@@ -533,14 +596,20 @@ func c08Prefix(seq, rest []int, ntok int) bool {
 }
 
 func (g *c08Gram) predHolds(j int, rest []int) bool {
-	pd := g.preds[j]
-	seqs := pd.seqs
-	if pd.guard >= 0 && !g.predHolds(pd.guard, rest) {
-		seqs = pd.seqsNot
-	}
-	for _, s := range seqs {
-		if c08Prefix(s, rest, g.ntok) {
-			return true
+	for _, sd := range g.preds[j].sides {
+		ok := true
+		for _, l := range sd.guard {
+			if g.predHolds(l.pred, rest) == l.neg {
+				ok = false
+			}
+		}
+		if !ok {
+			continue
+		}
+		for _, s := range sd.seqs {
+			if c08Prefix(s, rest, g.ntok) {
+				return true
+			}
 		}
 	}
 	return false
@@ -568,6 +637,7 @@ var c08ErrRe = regexp.MustCompile(`failed with ([a-z ]+):\n((?:\t\(\?= [^\n]*\)\
 
 func c08Gen(rng *rand.Rand, n int, args []string) {
 	dump := len(args) > 0 && args[0] == "dump"
+	c08NestedWithoutRecursive = len(args) > 0 && args[0] == "nonrec-nested"
 	var pkgs []*genPkg
 	var grams []*c08Gram
 	for i := 0; i < n; i++ {
@@ -671,6 +741,11 @@ func c08Gen(rng *rand.Rand, n int, args []string) {
 		opts := sx.List("opts", sx.Bool(g.cancellable), sx.Bool(g.cancFetch), sx.Bool(g.recursive), sx.Bool(g.optimize))
 		tm := sx.List("tm", sx.Str(p.tm))
 		sx.Stat(fmt.Sprintf("points_%d", len(g.points)), 1)
+		for _, pd := range g.preds {
+			if len(pd.sides) > 1 {
+				sx.Stat(fmt.Sprintf("nested_predicates_with_%d_guarded_sides", len(pd.sides)), 1)
+			}
+		}
 		for _, alts := range g.points {
 			sx.Stat(fmt.Sprintf("alternatives_%d", len(alts)), 1)
 		}
@@ -701,9 +776,13 @@ func c08Gen(rng *rand.Rand, n int, args []string) {
 				pts = append(pts, sx.List(sx.Int(c08Key(pi)), sx.List(as...)))
 			}
 			var nest []string
-			for j, pd := range g.preds {
-				if pd.guard >= 0 {
-					nest = append(nest, sx.List(sx.Int(j), sx.Int(pd.guard)))
+			for _, pd := range g.preds {
+				if len(pd.sides) > 1 {
+					var gs []string
+					for _, sd := range pd.sides {
+						gs = append(gs, c08LitsStr(sd.guard, nil))
+					}
+					nest = append(nest, sx.List(gs...))
 				}
 			}
 			var groups []string
@@ -793,15 +872,18 @@ func c08Gen(rng *rand.Rand, n int, args []string) {
 		}
 		var pds []string
 		for j, pd := range g.preds {
-			gi := -1
-			if pd.guard >= 0 {
-				gi = predInput[pd.guard]
+			var sds []string
+			for _, sd := range pd.sides {
+				sym := 0
+				if len(sd.guard) > 0 {
+					var ok bool
+					if sym, ok = symByName[litsName(sd.guard)]; !ok {
+						sym = -1
+					}
+				}
+				sds = append(sds, sx.List(sx.Int(sym), c08LitsStr(sd.guard, predInput), c08SeqsStr(sd.seqs)))
 			}
-			gsyms := sx.List()
-			if pd.guard >= 0 {
-				gsyms = sx.List(sx.Int(symByName[litsName([]c08Lit{{pd.guard, false}})]), sx.Int(symByName[litsName([]c08Lit{{pd.guard, true}})]))
-			}
-			pds = append(pds, sx.List(sx.Int(predInput[j]), sx.Int(gi), c08SeqsStr(pd.seqs), c08SeqsStr(pd.seqsNot), gsyms))
+			pds = append(pds, sx.List(sx.Int(predInput[j]), sx.List(sds...)))
 		}
 		var pts []string
 		for pi, alts := range g.points {
